@@ -307,3 +307,235 @@ IsCanonicalText(T) ==
 
 \* the enforced variant (room version 6 and later): refuse iff some number is not admissible
 EnforcedMustReject(v) == InadmissibleLits(v) # <<>>
+
+\* ------------------------------------------------------------------------
+\* 7. The writer: a state machine that writes one value token by token and
+\*    chooses the presentation.  A scenario fixes the value and the budget of
+\*    presentation freedom:
+\*       ws    how many whitespace tokens may be inserted
+\*       sp    how many characters / zeros may be written in a non canonical spelling
+\*       perm  whether object members may be written in any order
+\*       cor   whether one Corrupt action may be taken
+\* ------------------------------------------------------------------------
+CONSTANT Scenarios          \* set of [fam, v, ws, sp, perm, cor]
+
+VARIABLES scen,     \* history: the scenario (value to write and budget)
+          todo,     \* work stack: what remains to be written
+          text,     \* tokens written so far
+          status,   \* "valid" | "invalid" | "illformed": class of the text once finished
+          bud,      \* remaining budget
+          cor,      \* history: the Corrupt action taken, or "none"
+          phase     \* "start" | "writing" | "done"
+vars == <<scen, todo, text, status, bud, cor, phase>>
+
+It(k, v, s)  == [k |-> k, v |-> v, s |-> s]
+ValItem(v)   == It("val", v, <<>>)
+KeyItem(s)   == It("key", VNull, s)
+TokItem(t)   == It("tok", VNull, <<t>>)
+ChrItem(cp)  == It("chr", VNull, <<cp>>)
+CloseQuote   == It("cq", VNull, <<>>)
+
+Top == Head(todo)
+Writing == phase = "writing"
+InString == todo # <<>> /\ Top.k \in {"chr", "cq"}
+NoBudget == [ws |-> 0, sp |-> 0, perm |-> FALSE, cor |-> FALSE]
+
+InitWith(S) == /\ scen \in S
+               /\ todo = <<ValItem(scen.v)>>
+               /\ text = <<>>
+               /\ status = "valid"
+               /\ bud = [ws |-> scen.ws, sp |-> scen.sp, perm |-> scen.perm, cor |-> scen.cor]
+               /\ cor = "none"
+               /\ phase = "start"
+Init == InitWith(Scenarios)
+
+Start == /\ phase = "start"
+         /\ phase' = "writing"
+         /\ UNCHANGED <<scen, todo, text, status, bud, cor>>
+
+\* write(ts, rest): append tokens ts, continue with the work stack rest
+Write(ts, rest) == /\ text' = text \o ts
+                   /\ todo' = rest
+                   /\ UNCHANGED <<scen, status, cor, phase>>
+
+\* insignificant whitespace: between any two tokens, before the first and after the last
+EmitWs(w) == /\ Writing /\ ~InString /\ bud.ws > 0
+             /\ bud' = [bud EXCEPT !.ws = @ - 1]
+             /\ Write(<<w>>, todo)
+
+EmitFixed == /\ Writing /\ todo # <<>> /\ Top.k = "tok"
+             /\ Write(Top.s, Tail(todo)) /\ UNCHANGED bud
+
+EmitScalar == /\ Writing /\ todo # <<>> /\ Top.k = "val" /\ Top.v.k \in {"null", "true", "false"}
+              /\ Write(<<CASE Top.v.k = "null" -> TNull [] Top.v.k = "true" -> TTrue [] OTHER -> TFalse>>, Tail(todo))
+              /\ UNCHANGED bud
+
+\* a number is written as its literal; zero may also be written -0
+EmitNumber(l) == /\ Writing /\ todo # <<>> /\ Top.k = "val" /\ Top.v.k = "num"
+                 /\ \/ l = Top.v.s /\ UNCHANGED bud
+                    \/ Top.v.s = Zero /\ l = NegZeroLit /\ bud.sp > 0 /\ bud' = [bud EXCEPT !.sp = @ - 1]
+                 /\ Write(NumToks(l), Tail(todo))
+
+RECURSIVE ElemItems(_, _)
+ElemItems(c, i) == IF i > Len(c) THEN <<>>
+                   ELSE <<ValItem(c[i].val)>> \o (IF i < Len(c) THEN <<TokItem(Comma)>> ELSE <<>>) \o ElemItems(c, i + 1)
+BeginArray == /\ Writing /\ todo # <<>> /\ Top.k = "val" /\ Top.v.k = "arr"
+              /\ Write(<<LBrack>>, ElemItems(Top.v.c, 1) \o <<TokItem(RBrack)>> \o Tail(todo))
+              /\ UNCHANGED bud
+
+\* p: a permutation of the member indices
+RECURSIVE MemberItems(_, _, _)
+MemberItems(c, p, i) == IF i > Len(c) THEN <<>>
+                        ELSE <<KeyItem(c[p[i]].key), TokItem(Colon), ValItem(c[p[i]].val)>>
+                             \o (IF i < Len(c) THEN <<TokItem(Comma)>> ELSE <<>>) \o MemberItems(c, p, i + 1)
+Identity(n) == [i \in 1..n |-> i]
+Orders(n) == IF bud.perm /\ n > 1 THEN Permutations(1..n) ELSE {Identity(n)}
+ChooseKeyOrder(p) == /\ Writing /\ todo # <<>> /\ Top.k = "val" /\ Top.v.k = "obj"
+                     /\ p \in Orders(Len(Top.v.c))
+                     /\ Write(<<LBrace>>, MemberItems(Top.v.c, p, 1) \o <<TokItem(RBrace)>> \o Tail(todo))
+                     /\ UNCHANGED bud
+
+StringOf(item) == IF item.k = "key" THEN item.s ELSE item.v.s
+BeginString == /\ Writing /\ todo # <<>> /\ (Top.k = "key" \/ (Top.k = "val" /\ Top.v.k = "str"))
+               /\ Write(<<Quote>>, [i \in 1..Len(StringOf(Top)) |-> ChrItem(StringOf(Top)[i])] \o <<CloseQuote>> \o Tail(todo))
+               /\ UNCHANGED bud
+
+EmitChar(sp) == /\ Writing /\ todo # <<>> /\ Top.k = "chr"
+                /\ LET cp == Top.s[1] IN
+                   /\ \/ sp = CanonSp(cp) /\ UNCHANGED bud
+                      \/ sp # CanonSp(cp) /\ sp \in Spellings(cp) /\ bud.sp > 0 /\ bud' = [bud EXCEPT !.sp = @ - 1]
+                   /\ Write(<<ChTok(cp, sp)>>, Tail(todo))
+
+CloseString == /\ Writing /\ todo # <<>> /\ Top.k = "cq"
+               /\ Write(<<Quote>>, Tail(todo)) /\ UNCHANGED bud
+
+Finish == /\ Writing /\ todo = <<>>
+          /\ phase' = "done"
+          /\ UNCHANGED <<scen, todo, text, status, bud, cor>>
+
+\* --- Corrupt: at most one per text; afterwards the rest is written plainly ---
+Spoil(kind, st, ts, rest) == /\ Writing /\ bud.cor /\ cor = "none"
+                             /\ cor' = kind /\ status' = st /\ bud' = NoBudget
+                             /\ text' = text \o ts /\ todo' = rest
+                             /\ UNCHANGED <<scen, phase>>
+
+BadNums == { <<48,49>>, <<43,49>>, <<46,53>>, <<49,46>>, <<45>>, <<49,101>>, <<49,101,43>>,
+             <<45,48,49>>, <<49,46,101,50>>, <<48,48>>, <<45,46,53>> }
+          \* 01 +1 .5 1. - 1e 1e+ -01 1.e2 00 -.5
+LoneSurrogates == {55296, 56319, 56320, 57343}            \* D800 DBFF DC00 DFFF
+Garbage == {RBrack, RBrace, Comma, Colon, Bare, Quote, TNull}
+
+CorTruncate      == todo # <<>> /\ Spoil("truncate", "invalid", <<>>, <<>>)
+CorTrailingComma == todo # <<>> /\ Top.k = "tok" /\ Top.s[1] \in {RBrack, RBrace}
+                    /\ Spoil("trailing_comma", "invalid", <<Comma>>, todo)
+CorDoubleComma   == todo # <<>> /\ Top.k = "tok" /\ Top.s[1] = Comma
+                    /\ Spoil("double_comma", "invalid", <<Comma, Comma>>, Tail(todo))
+CorDropColon     == todo # <<>> /\ Top.k = "tok" /\ Top.s[1] = Colon
+                    /\ Spoil("drop_colon", "invalid", <<>>, Tail(todo))
+CorBadEscape(t)  == InString /\ Spoil("bad_escape", "invalid", <<t>>, todo)
+CorRawControl(c) == InString /\ Spoil("raw_control", "invalid", <<ChTok(c, SpRaw)>>, todo)
+CorBadNumber(l)  == todo # <<>> /\ Top.k = "val" /\ Top.v.k = "num"
+                    /\ Spoil("bad_number", "invalid", NumToks(l), Tail(todo))
+CorUnquotedKey   == todo # <<>> /\ Top.k = "key" /\ Spoil("unquoted_key", "invalid", <<Bare>>, Tail(todo))
+CorBareValue     == todo # <<>> /\ Top.k = "val" /\ Top.v.k \in {"null", "true", "false"}
+                    /\ Spoil("bare_value", "invalid", <<Bare>>, Tail(todo))
+CorLoneSurrogate(c, sp) == InString /\ Spoil("lone_surrogate", "illformed", <<ChTok(c, sp)>>, todo)
+CorTrailingGarbage(t) == todo = <<>> /\ Spoil("trailing_garbage", "invalid", <<t>>, todo)
+
+Corrupt == \/ CorTruncate \/ CorTrailingComma \/ CorDoubleComma \/ CorDropColon
+           \/ \E t \in {BadEsc, BadHex} : CorBadEscape(t)
+           \/ \E c \in {0, 10, 31} : CorRawControl(c)
+           \/ \E l \in BadNums : CorBadNumber(l)
+           \/ CorUnquotedKey \/ CorBareValue
+           \/ \E c \in LoneSurrogates, sp \in {SpULower, SpUUpper} : CorLoneSurrogate(c, sp)
+           \/ \E t \in Garbage : CorTrailingGarbage(t)
+
+TopIs(k) == todo # <<>> /\ Top.k = "val" /\ Top.v.k = k
+Next == \/ Start
+        \/ \E w \in WsToks : EmitWs(w)
+        \/ EmitFixed \/ EmitScalar
+        \/ \E l \in (IF TopIs("num") THEN {Top.v.s, NegZeroLit} ELSE {}) : EmitNumber(l)
+        \/ BeginArray
+        \/ \E p \in (IF TopIs("obj") THEN Orders(Len(Top.v.c)) ELSE {}) : ChooseKeyOrder(p)
+        \/ BeginString
+        \/ \E sp \in 0..5 : EmitChar(sp)
+        \/ CloseString
+        \/ Corrupt
+        \/ Finish
+
+Spec == Init /\ [][Next]_vars
+
+\* ------------------------------------------------------------------------
+\* 8. Concrete syntax: the bytes of a token text (UTF-8).  The Go renderer
+\*    (harness/cmd/c01/render.go) is the same table; trace validation checks
+\*    one against the other and compares the library's output with
+\*    Bytes(Canon(..)).
+\* ------------------------------------------------------------------------
+FixedBytes(t) ==
+    CASE t = LBrace -> <<123>> [] t = RBrace -> <<125>> [] t = LBrack -> <<91>> [] t = RBrack -> <<93>>
+      [] t = Colon -> <<58>> [] t = Comma -> <<44>> [] t = Quote -> <<34>>
+      [] t = TNull -> <<110,117,108,108>> [] t = TTrue -> <<116,114,117,101>> [] t = TFalse -> <<102,97,108,115,101>>
+      [] t = WsSp -> <<32>> [] t = WsTab -> <<9>> [] t = WsNl -> <<10>> [] t = WsCr -> <<13>>
+      [] t = Bare -> <<120>> [] t = BadEsc -> <<92,120>> [] t = BadHex -> <<92,117,48,48,71,48>>
+
+UTF8(cp) ==
+    IF cp < 128 THEN <<cp>>
+    ELSE IF cp < 2048 THEN <<192 + cp \div 64, 128 + (cp % 64)>>
+    ELSE IF cp < 65536 THEN <<224 + cp \div 4096, 128 + ((cp \div 64) % 64), 128 + (cp % 64)>>
+    ELSE <<240 + cp \div 262144, 128 + ((cp \div 4096) % 64), 128 + ((cp \div 64) % 64), 128 + (cp % 64)>>
+
+HexDigit(d, up) == IF d < 10 THEN 48 + d ELSE IF up THEN 55 + d ELSE 87 + d
+UEscape(n, up) == <<92, 117, HexDigit((n \div 4096) % 16, up), HexDigit((n \div 256) % 16, up),
+                    HexDigit((n \div 16) % 16, up), HexDigit(n % 16, up)>>
+ShortLetter(cp) == CASE cp = 34 -> 34 [] cp = 92 -> 92 [] cp = 47 -> 47 [] cp = 8 -> 98 [] cp = 9 -> 116
+                     [] cp = 10 -> 110 [] cp = 12 -> 102 [] cp = 13 -> 114
+HighSurr(cp) == 55296 + (cp - 65536) \div 1024
+LowSurr(cp)  == 56320 + ((cp - 65536) % 1024)
+ChBytes(cp, sp) ==
+    CASE sp = SpRaw -> UTF8(cp)
+      [] sp = SpShort -> <<92, ShortLetter(cp)>>
+      [] sp = SpULower -> UEscape(cp, FALSE)
+      [] sp = SpUUpper -> UEscape(cp, TRUE)
+      [] sp = SpPairLower -> UEscape(HighSurr(cp), FALSE) \o UEscape(LowSurr(cp), FALSE)
+      [] sp = SpPairUpper -> UEscape(HighSurr(cp), TRUE) \o UEscape(LowSurr(cp), TRUE)
+
+TokBytes(t) == IF IsChTok(t) THEN ChBytes(TokCp(t), TokSp(t))
+               ELSE IF IsNumTok(t) THEN <<NumByte(t)>> ELSE FixedBytes(t)
+RECURSIVE BytesFrom(_, _, _)
+BytesFrom(T, i, acc) == IF i > Len(T) THEN acc ELSE BytesFrom(T, i + 1, acc \o TokBytes(T[i]))
+Bytes(T) == BytesFrom(T, 1, <<>>)
+
+\* ------------------------------------------------------------------------
+\* 9. Properties.  The library is not part of this module: these state what
+\*    the oracle must satisfy (so that a mistake in Canon / Parse / the writer
+\*    is found by TLC and not blamed on the code), over the history variables
+\*    scen (the value) and text (its presentation).
+\* ------------------------------------------------------------------------
+TypeOK == /\ phase \in {"start", "writing", "done"}
+          /\ status \in {"valid", "invalid", "illformed"}
+          /\ bud.ws >= 0 /\ bud.sp >= 0
+          /\ (cor = "none") = (status = "valid")
+
+\* value-only facts, checked once per scenario (in the state that follows Start)
+AtStart == phase = "writing" /\ text = <<>> /\ todo = <<ValItem(scen.v)>>
+\* Parse(Canon(v)) = v: canonicalisation denotes the same value, and is valid JSON
+CanonDenotesValue == AtStart => LET r == Parse(Canon(scen.v)) IN
+                                StatusOf(r) = "valid" /\ SameValue(r.v, scen.v)
+\* Canon is a fixed point: canonicalising the canonical text changes nothing
+CanonFixedPoint   == AtStart => Canon(Parse(Canon(scen.v)).v) = Canon(scen.v)
+\* Canon(v) is in the one canonical form (predicate of section 6, independent of CanonV)
+CanonIsCanonical  == AtStart => IsCanonicalText(Canon(scen.v))
+AltIsCanonical    == AtStart => /\ IsCanonicalText(CanonAlt(scen.v))
+                                /\ (Canon(scen.v) # CanonAlt(scen.v) => \E i \in DOMAIN LitsOf(scen.v) : NegZeroLoose(LitsOf(scen.v)[i]))
+
+\* facts about finished texts
+Done == phase = "done"
+\* the status the writer tracked is the status the validating reader derives from the text alone
+WriterStatusSound == Done => status = Status(text)
+\* a valid presentation denotes the scenario's value
+PresentationDenotesValue == Done /\ status = "valid" => SameValue(Parse(text).v, scen.v)
+\* uniqueness: every presentation of a value has the same canonical text
+CanonUnique == Done /\ status = "valid" => Canon(Parse(text).v) = Canon(scen.v)
+\* a text that is its own canonical form is exactly a text satisfying the predicate
+CanonicalIffFixed == Done /\ status = "valid" => (IsCanonicalText(text) <=> text = Canon(scen.v))
+=============================================================================
